@@ -502,7 +502,8 @@ def suite_programs(ctx, exe, cases, suite):
         faithful, abstract = norm_prog(raw)
         cfg = f"-O{c['level']}{' -g' if c['debug'] else ''}"
         detail = {'suite': suite, 'source': c['src'], 'config': cfg, 'layout': c['lay'],
-                  'script': c['script'], 'impl': faithful, 'model': m_model, 'spec': m_spec}
+                  'script': c['script'], 'impl': faithful, 'model': m_model, 'spec': m_spec,
+                  'level': c['level'], 'debug': c['debug'], 'evs': c['evs'], 'ops': c['ops']}
         nont.add(json.dumps([c['evs'], c['ops']]))
         ctx.bump('program-config:' + cfg)
         ctx.bump('program-spec:' + ('invalid' if m_spec == [1] else
@@ -662,10 +663,36 @@ def main(tier, seed):
 
 
 def replay(path):
+    """re-runs the recorded input against the implementation, the model and the
+    specification; exit 1 when the disagreement still reproduces"""
     d = json.load(open(path))
-    print(json.dumps(d, indent=1)[:6000])
     first = d.get('first') or {}
+    print(json.dumps({k: v for k, v in d.items() if k != 'first'}, indent=1)[:3000])
     if 'source' in first:
         print('--- source ---')
         print(first['source'])
-    return 0
+    suite = first.get('suite')
+    if suite is None:
+        print(json.dumps(first, indent=1)[:4000])
+        return 0
+    ctx = Ctx(PROP + 'replay', 'quick', 0, 'proof')
+    ctx.findings = vlib.load_findings(PROP)
+    exe = ctx.model('Data')
+    if suite == 'texts':
+        suite_texts(ctx, exe, [first['text']], suite)
+    elif suite.startswith('device'):
+        suite_device(ctx, exe, [(suite, first['data'], [first['ops']])])
+    elif suite == 'programs':
+        case = dict(lay=first['layout'], script=first['script'], level=first['level'],
+                    debug=first['debug'], evs=first['evs'], ops=first['ops'], src=first['source'])
+        suite_programs(ctx, exe, [case], suite)
+    hits = [(v['signature'], v['detail']) for v in ctx.violations]
+    hits += [('known:' + k, x) for k, v in ctx.known_hits.items() for x in v]
+    for sig, det in hits:
+        print('REPRODUCED', sig)
+        print(json.dumps({k: det.get(k) for k in ('impl', 'model', 'spec', 'prints') if k in det})[:2000])
+    if ctx.broken:
+        print('harness:', ctx.broken)
+    if not hits:
+        print('not reproduced: implementation, model and specification agree on this input')
+    return 1 if hits or ctx.broken else 0
